@@ -63,7 +63,7 @@ Section TaxaUnion.
         destruct He as [it [He Hi]]. subst e. rewrite Forall_forall in HN.
         exact (proj1 (newick_ok_entry (fst it) _ (HN it Hi))). }
     unfold finish, doc_state.
-    cbn [ns_taxantax ns_taxlabels ns_trees ns_table ns_data ns_missing ns_gap].
+    cbn [ns_taxantax ns_taxlabels ns_trees ns_table ns_data ns_missing ns_gap ns_tabs].
     rewrite <- labels_length. unfold zlength.
     replace (Z.of_nat (length (labels_of l)) =? -1)%Z with false by (symmetry; apply Z.eqb_neq; lia).
     rewrite Z.eqb_refl. cbn [negb andb orb Ascii.eqb Bool.eqb].
